@@ -17,6 +17,7 @@ import (
 )
 
 type c05Scn struct {
+	Monitor bool    `json:"monitor,omitempty"`
 	N      int      `json:"n"`
 	Action string   `json:"action"`
 	Prefix []int    `json:"choices"`
@@ -61,7 +62,7 @@ func runC05(t *testing.T, s c05Scn) (x nExec) {
 		n := s.N
 		settleT := c05Settle(n)
 		cfg := clusterCfg{N: n, Opts: c05Opts, L0: time.Millisecond, LatAlt: []time.Duration{700 * time.Millisecond}, AllowDrop: true, AllowDup: true, StreamAlt: true,
-			FaultFrom: c05FaultFrom, FaultTo: c05FaultTo, Horizon: c05FaultTo + settleT}
+			FaultFrom: c05FaultFrom, FaultTo: c05FaultTo, Horizon: c05FaultTo + settleT, Monitor: s.Monitor}
 		c := newCluster(t, b, cfg, ch)
 		for i := 0; i < n; i++ {
 			c.startTicks(i)
@@ -143,6 +144,33 @@ func runC05(t *testing.T, s c05Scn) (x nExec) {
 				c.nodes[0].T.Deliver(dm, simAddr(nodeAddr(last)))
 			})
 		}
+		if s.Monitor {
+			// C07: the event monitors of all nodes are the step oracle
+			c.StepCheck = func(c *cluster) string {
+				for _, n := range c.nodes {
+					if n.crashed || n.mon == nil {
+						continue
+					}
+					if n.Ev.MaxConc > 1 {
+						return n.Name + ": concurrent event callbacks"
+					}
+					if len(n.mon.errs) > 0 {
+						return n.Name + ": " + strings.Join(n.mon.errs, "; ")
+					}
+					var names []string
+					for _, m := range n.M.Members() {
+						names = append(names, m.Name)
+						if lm, ok := n.mon.set[m.Name]; ok && lm != string(m.Meta) {
+							return fmt.Sprintf("%s: Members() shows %s with meta %q, the event log says %q", n.Name, m.Name, m.Meta, lm)
+						}
+					}
+					if got := strings.Join(sortedKeys(n.mon.set), ","); got != strings.Join(sortedCopy(names), ",") {
+						return fmt.Sprintf("%s: Members()={%s}, replayed event log={%s}", n.Name, strings.Join(sortedCopy(names), ","), got)
+					}
+				}
+				return ""
+			}
+		}
 		precond := true
 		c.at(c05FaultTo, "faults-stop", func() {
 			// connectivity of the undirected lists-as-member graph over live nodes
@@ -179,6 +207,12 @@ func runC05(t *testing.T, s c05Scn) (x nExec) {
 		c.run()
 		x.Digest = c.digest()
 		x.Extra = map[string]any{"packets": len(c.Wire), "precondition": precond}
+		if s.Monitor {
+			if c.stepFail != "" {
+				x.Verdict, x.Msg = "event-log", c.stepFail
+			}
+			return
+		}
 		if !precond {
 			return
 		}
